@@ -1,9 +1,7 @@
 /-
   C14 — the root count over large primes: the number of distinct roots of f ≠ 0 in Z/p is the degree of gcd(f, X^p − X)
   (`roots_count_gcd`: X^p − X splits with the elements of the field as simple roots, so a divisor of it has as many
-  distinct roots as its degree, and the roots of the gcd are the roots of f).  With `fpPowMod_spec` what stays outside the
-  theorems for this count is the model's extended Euclid returning a gcd (validated per run on the small primes where the
-  count is also obtained exhaustively).
+  distinct roots as its degree, and the roots of the gcd are the roots of f).  The model's count is tied to this in `C14RootCountModel` (`rootCountFp_spec`).
 -/
 import Mathlib.FieldTheory.Finite.Basic
 import Mathlib.Algebra.Polynomial.Splits
